@@ -121,6 +121,13 @@ def booking_guard_rule(ctx: Ctx, rid: str):
         raise AnchorMissing("bookResource: call of ResourceScenario.book not found")
 
 
+def run_extra(ctx: Ctx):
+    # ---------------------------------------------------------------- R03.12 answers never come from state that outlives the question
+    from .common import process_state_rule
+    process_state_rule(ctx, "R03.12", [ctx.repo.func("Project.schedule")],
+                       "the effort credited or the work still open is answered from another task's, slot's or run's value")
+
+
 def run(ctx: Ctx):
     repo = ctx.repo
     brs = repo.func("TaskScenario.bookResources")
